@@ -108,6 +108,9 @@ func (err *jsonParseError) Error() string {
 		offset = int(e.Offset)
 	}
 	linestr, line, column := getLineByOffset(err.contents, offset)
+	if line == 0 {
+		line = 1 // the error at the beginning of the empty contents
+	}
 	if line += err.line; line > 1 {
 		return fmt.Sprintf("invalid json: %s:%d\n%s  %s",
 			err.fname, line, formatLineInfo(linestr, line, column), err.err)
